@@ -87,6 +87,24 @@ ADD7 = {
 }
 for _k, _v in ADD7.items():
     CHECKS[_k]["text"] += _v
+# drivers added in wave 8
+ADD8 = {
+ "C02": " By-reference calls in non-entry blocks of the caller.",
+ "C04": " Out-of-range immediates in every argument form of ImportScratchValue / GeneratedID.",
+ "C05": " Type-confusion sweep: every constructor x every literal leaf replaced by a leaf of the other stack type or a value-less expression; byte-string variables written on some paths only.",
+ "C06": " abi.StaticBytes / abi.DynamicBytes shapes; byte[N] and address given other widths (literal refused, expression fails).",
+ "C07": " abi.StaticBytes / abi.DynamicBytes shapes and neighbouring members of one aggregate class with different sizes.",
+ "C09": " Every typed transaction kind x every actual transaction type x constants assembled or not; colliding selectors.",
+ "C10": " By-reference into ABI-returning subroutines; a variable reused across blocks with the optimiser on.",
+ "C12": " Per-kind literal populations (all named constants, all base32/64/16 length classes, special first characters); a program that compiles without the option must compile with it.",
+ "C13": " Byte-order mark and U+2028 in the text alphabet.",
+ "C16": " Ratios nested in ratios.",
+ "C17": " Byte-string variables.",
+ "C18": " Configurations with the slot optimiser on (known finding: an annotation between a store and its load blocks the cancellation).",
+ "C20": " Valid read-after-conditional-write programs with exits must be accepted.",
+}
+for _k, _v in ADD8.items():
+    CHECKS[_k]["text"] += _v
 props = [json.loads(l) for l in open(os.path.join(HERE, "properties.jsonl"))]
 checks = []
 na = []
